@@ -575,7 +575,7 @@ def run(ctx):
         return name, tlc.run("MC_EnvSave", cfg, ctx.scratch, timeout=1700, heap="6g", **kw)
     jobs = [(c["name"], "EnvSave.cfg", c["sub"], dict(workers=4, coverage=bool(c["required"]), **(dict(simulate=dict(num=c["simulate"]["num"]), depth=c["simulate"]["depth"], seed=ctx.seed) if c["simulate"] else {}))) for c in C]
     for g, _, _ in GUARDS:
-        jobs.append(("guard-" + g, "EnvSave.cfg", {'Variant = "ok"': 'Variant = "%s"' % g, "Record = TRUE": "Record = FALSE", "MaxCalls = 2": "MaxCalls = 3"}, dict(workers=1)))
+        jobs.append(("guard-" + g, "EnvSave.cfg", {'Variant = "ok"': 'Variant = "%s"' % g, "Record = TRUE": "Record = FALSE"}, dict(workers=1)))
     jobs.append(("live", "EnvSave_live.cfg", {} if not ctx.quick else {"MaxCalls = 3": "MaxCalls = 2"}, dict(workers=4)))
     with ThreadPoolExecutor(max_workers=3) as ex:
         results = dict(ex.map(tlc_job, jobs))
